@@ -188,6 +188,10 @@ pub fn fuzz_chardef(data: &[u8]) -> Result<(), Failure> {
         _ => return Ok(()),
     };
     let model = CharDefModel::parse(text);
+    if model.unknown_class_tokens {
+        // a file that lists something that is not a class name: not judged (see model::chardef)
+        return Ok(());
+    }
     let mut pts: Vec<u32> = vec![0, 0x10FFFF];
     for l in &model.ranges {
         for p in [l.begin, l.end] {
